@@ -78,6 +78,9 @@ pub struct Spec<'a> {
     pub p: u32,
     /// bound on list / string / map lengths
     pub l: usize,
+    /// oracle self-test: 0 = the reference; 1..=3 = a deliberately WRONG
+    /// reference (the check must then report violations, else it is blind)
+    pub mutate: u32,
 }
 
 pub type Obl = (String, T);
@@ -149,7 +152,13 @@ impl<'a> Spec<'a> {
     pub fn align(&self, ty: &Type) -> u32 {
         match self.shape(ty) {
             Shape::Bool => 1,
-            Shape::Int { bits, .. } => bits / 8,
+            Shape::Int { bits, .. } => {
+                if self.mutate == 1 && bits == 64 {
+                    4
+                } else {
+                    bits / 8
+                }
+            }
             Shape::F32 | Shape::Char => 4,
             Shape::F64 => 8,
             Shape::List { .. } | Shape::Map { .. } => self.p,
@@ -576,7 +585,7 @@ impl<'a> Spec<'a> {
             }
             (Shape::Int { bits, signed }, Val::BV(x)) => {
                 let to = if bits == 64 { 64 } else { 32 };
-                let w = if signed { tb.sext_to(*x, to) } else { tb.zext_to(*x, to) };
+                let w = if signed && self.mutate != 2 { tb.sext_to(*x, to) } else { tb.zext_to(*x, to) };
                 want_eq(self, tb, slots[0], w, out);
                 1
             }
@@ -646,7 +655,7 @@ impl<'a> Spec<'a> {
                     }
                     for k in used..joined.len() - 1 {
                         let s = slots[1 + k];
-                        let z = tb.bv(0, tb.width(s));
+                        let z = tb.bv(if self.mutate == 3 { 1 } else { 0 }, tb.width(s));
                         let e = tb.eq(s, z);
                         self.imp(tb, g, e, &format!("{path}.c{i}.unused-slot{k}-zero"), out);
                     }
